@@ -14,6 +14,30 @@ from . import tok
 from .framework import Replayer
 
 
+def rust_debug_str(text):
+    """`{:?}` of a str (char::escape_debug): quotes, backslashes, control and unprintable characters escaped"""
+    out = ['"']
+    for ch in text:
+        if ch == '"':
+            out.append('\\"')
+        elif ch == "\\":
+            out.append("\\\\")
+        elif ch == "\n":
+            out.append("\\n")
+        elif ch == "\r":
+            out.append("\\r")
+        elif ch == "\t":
+            out.append("\\t")
+        elif ch == "\0":
+            out.append("\\0")
+        elif ch.isprintable():
+            out.append(ch)
+        else:
+            out.append("\\u{%x}" % ord(ch))
+    out.append('"')
+    return "".join(out)
+
+
 def fmt_debug(cz, v, layout=None):
     """mirsym value -> Rust `{:?}` text under the concretizer's model"""
     t = type(v)
@@ -42,7 +66,7 @@ def fmt_debug(cz, v, layout=None):
     if t is str:
         return '"%s"' % v
     if t is SymStr:
-        return '"%s"' % cz.string(v.term)
+        return rust_debug_str(cz.string(v.term))
     if t is Adt:
         if v.ty == "Option":
             return "None" if v.var == 0 else "Some(%s)" % fmt_debug(cz, v.fields[0], layout)
@@ -115,6 +139,7 @@ def run_tok_job(job, build, corpus, oracle, max_validate=400, step_budget=600000
     out = {"stats": None, "cex": [], "inconclusive": [], "samples": [], "validate": [], "nontrivial": 0,
            "classes": {}, "spec_leaves": 0}
     ex.declared_env = set(g.env_names)
+    ex.conv = getattr(g, "conv", "u32")
 
     def harness(ex):
         parser = ex.call(parse_callee(g.builder), [])
